@@ -1,7 +1,7 @@
 /- C09 — property theorems (part B: redirects; part A: admission). -/
 import TornadoModel.C09.Lemmas
 import TornadoModel.C09.Admission
-import TornadoModel.C09.Once
+import TornadoModel.C09.Active
 namespace TornadoModel.C09
 open TornadoModel.C06
 
@@ -198,20 +198,27 @@ example : completions (run (init 1) [.fetch 0 50, .fetch 1 2, .fetch 2 60, .adva
 
 /-- **admission_conservation** (the partition invariant): at every moment of every run with distinct keys, the fetches
     completed so far together with the roots (the fetch a key ultimately belongs to, through redirects) of the keys
-    still waiting in the queue or owning an open connection are a permutation of the fetched keys — every fetch is
-    in exactly one of {completed, waiting, connected}, exactly once. -/
+    still waiting in the queue or in `active` are a permutation of the fetched keys — every fetch is in exactly one
+    of {completed, waiting, active}, exactly once; and no key is both waiting and active or listed twice. -/
 theorem admission_conservation (mx : Nat) (ops : List Op) (hn : (submitted ops).Nodup) :
     (completions (run (init mx) ops).2 ++
-      ((run (init mx) ops).1.waiting.map (·.1) ++ (run (init mx) ops).1.conns.map (·.key)).map
-        (run (init mx) ops).1.root).Perm (fetchedOf ops) ∧ (fetchedOf ops).Nodup := by
+      ((run (init mx) ops).1.waiting.map (·.1) ++ (run (init mx) ops).1.active).map
+        (run (init mx) ops).1.root).Perm (fetchedOf ops) ∧
+    (fetchedOf ops).Nodup ∧ ((run (init mx) ops).1.waiting.map (·.1) ++ (run (init mx) ops).1.active).Nodup := by
   have h := run_init_inv mx ops hn
-  refine ⟨?_, h.fnodup⟩
+  have hA : (run (init mx) ops).1.active = (run (init mx) ops).1.conns.map (·.key) := run_init_AC mx ops hn
+  rw [hA]
+  refine ⟨?_, h.fnodup, h.live_nodup⟩
   have hr : (live (run (init mx) ops).1).map (run (init mx) ops).1.root =
       (live (run (init mx) ops).1).map (rootL (run (init mx) ops).1.parent) :=
     List.map_congr_left (fun k _ => root_eq_rootL _ h.wfp k)
   have hp := h.perm
   rw [← hr] at hp
   exact hp
+
+/-- `active` is exactly the list of keys that own an open connection (so `_release` always finds its key) -/
+theorem active_eq_conns (mx : Nat) (ops : List Op) (hn : (submitted ops).Nodup) :
+    (run (init mx) ops).1.active = (run (init mx) ops).1.conns.map (·.key) := run_init_AC mx ops hn
 
 /-- no fetch completes twice, at any point of any run -/
 theorem completions_nodup (mx : Nat) (ops : List Op) (hn : (submitted ops).Nodup) :
@@ -280,6 +287,9 @@ example : (submitted exOps).Nodup ∧ (∀ k T, Op.fetch k T ∈ exOps → 0 < T
   simp only [exOps, List.mem_cons, Op.fetch.injEq, List.mem_nil_iff, reduceCtorEq, or_false] at h
   omega
 example : completions (run (init 1) (exOps ++ [.advance 180])).2 = [2, 1, 0] ∧ fetchedOf exOps = [0, 1, 2] := by decide
+/-- … and in the middle of that run: fetch 2 timed out, key 1 is active, key 3 (root 0) waits -/
+example : completions (run (init 1) (exOps.take 6)).2 = [2] ∧ (run (init 1) (exOps.take 6)).1.active = [1] ∧
+    (run (init 1) (exOps.take 6)).1.waiting.map (·.1) = [3] ∧ (run (init 1) (exOps.take 6)).1.root 3 = 0 := by decide
 
 /-- non-vacuity for the redirect theorems: a POST with a two-valued Cookie and an Authorization header, redirected by a
     303 to another host: followed, becomes GET, and nothing credential-like survives. -/
